@@ -5,6 +5,7 @@ import Enc.Lemmas.ProtoWireVal
 import Enc.Lemmas.ProtoLiberal
 import Enc.Lemmas.ProtoMap
 import Enc.Lemmas.ProtoLiberalMap
+import Enc.Lemmas.ProtoDepth
 /-!
 # C12 — proto bytes are standard protobuf wire format, both ways
 Property theorems only.
@@ -78,7 +79,13 @@ theorem reference_decodes_marshal_partial (fs : Fields) (v : Val)
       = some (Spec.Protobuf.canonical (.struct fs) v) :=
   Lemmas.ProtoWire.decode_marshal_partial fs v hty hv hne hlen
 
-/-! ## … and conversely: every encoding the reference accepts (proofs in Enc/Lemmas/ProtoLiberal*.lean, 2.2 k lines) -/
+/-! ## … and conversely: every encoding the reference accepts (proofs in Enc/Lemmas/ProtoLiberal*.lean, 2.2 k lines)
+
+Since commit b70a382 `Unmarshal` refuses messages nested more than `proto.maxDepth` = 10000 deep, which the reference
+decoder (like the wire format) does not. Inputs decoded against a finite message type cannot nest deeper than the type, so
+the theorems carry the decidable hypothesis `hdep` on the TYPE (at most 10000 messages high, `Codec.nesting`; see
+`Props.C07.limit_invisible_below`, and `Props.C07.limit_only_adds_an_error` for what happens without it) and stay
+statements about EVERY byte string. -/
 
 open Lemmas.ProtoWire in
 /-- **MAIN (both ways, second half).** For every message type of the universe and EVERY byte string the reference
@@ -86,16 +93,20 @@ decoder accepts — fields in any order, non-minimal varints in tags, lengths an
 overriding an earlier one, repeated fields accumulating, embedded messages split into several occurrences and merged,
 unknown fields — `Unmarshal` returns literally the same value. -/
 theorem unmarshal_of_reference_decode (fs : Fields) (hty : tyOK (.struct fs) = true) (b : Bytes) (v : Val)
-    (h : Spec.Protobuf.decode (.struct fs) b = some v) : unmarshal (.struct fs) b = .ok v :=
-  Lemmas.ProtoLiberal.unmarshal_of_decode fs hty b v h
+    (hdep : Codec.nesting (codecOf (.struct fs)) ≤ Gen.c_proto_maxDepth)
+    (h : Spec.Protobuf.decode (.struct fs) b = some v) : unmarshal (.struct fs) b = .ok v := by
+  rw [Lemmas.ProtoDepth.unmarshal_eq_unmarshalU _ _ hdep]
+  exact Lemmas.ProtoLiberal.unmarshal_of_decode fs hty b v h
 
 open Lemmas.ProtoWire Lemmas.ProtoLiberal in
 /-- exact characterisation of where the two decoders differ: only on inputs containing a record with field number 0
 (which the Go decoder skips as an unknown field and protobuf forbids); everywhere else they accept the same inputs
 with the same values and reject the same inputs -/
 theorem unmarshal_iff_reference_decode (fs : Fields) (hty : tyOK (.struct fs) = true) (b : Bytes) (v : Val)
-    (hz : ¬ ZeroNum fs b) : unmarshal (.struct fs) b = .ok v ↔ Spec.Protobuf.decode (.struct fs) b = some v :=
-  Lemmas.ProtoLiberal.unmarshal_iff_decode fs hty b v hz
+    (hdep : Codec.nesting (codecOf (.struct fs)) ≤ Gen.c_proto_maxDepth)
+    (hz : ¬ ZeroNum fs b) : unmarshal (.struct fs) b = .ok v ↔ Spec.Protobuf.decode (.struct fs) b = some v := by
+  rw [Lemmas.ProtoDepth.unmarshal_eq_unmarshalU _ _ hdep]
+  exact Lemmas.ProtoLiberal.unmarshal_iff_decode fs hty b v hz
 
 /-! ## map fields (proofs in Enc/Lemmas/ProtoMap*.lean): universe `tyOKM` = `tyOK` + `map[K]V` fields -/
 
@@ -127,16 +138,26 @@ values split in several occurrences, duplicate keys (first position kept, last v
 `map[string]int32`: the reference reads `{"": 0}`, this decoder reads the library's own empty-map marker) — the decode
 side of the known finding proto-empty-map-marker. -/
 theorem unmarshal_of_reference_decode_maps_partial (fs : Fields) (hty : tyOKM (.struct fs) = true) (b : Bytes) (v : Val)
-    (hne : noEmptyEntry (.struct fs) b = true)
-    (h : Spec.Protobuf.decode (.struct fs) b = some v) : unmarshal (.struct fs) b = .ok v :=
-  Lemmas.ProtoLiberalMap.unmarshal_of_decode_map_partial fs hty b v hne h
+    (hne : noEmptyEntry (.struct fs) b = true) (hdep : Codec.nesting (codecOf (.struct fs)) ≤ Gen.c_proto_maxDepth)
+    (h : Spec.Protobuf.decode (.struct fs) b = some v) : unmarshal (.struct fs) b = .ok v := by
+  rw [Lemmas.ProtoDepth.unmarshal_eq_unmarshalU _ _ hdep]
+  exact Lemmas.ProtoLiberalMap.unmarshal_of_decode_map_partial fs hty b v hne h
 
 open Lemmas.ProtoWire Lemmas.ProtoMap Lemmas.ProtoLiberalMap in
 /-- … and without any exclusion: everything the reference accepts, `Unmarshal` accepts, with a value of the same
 message / pointer skeleton (`sh`) -/
 theorem unmarshal_accepts_reference_decode_maps (fs : Fields) (hty : tyOKM (.struct fs) = true) (b : Bytes) (v : Val)
+    (hdep : Codec.nesting (codecOf (.struct fs)) ≤ Gen.c_proto_maxDepth)
     (h : Spec.Protobuf.decode (.struct fs) b = some v) :
-    ∃ v', unmarshal (.struct fs) b = .ok v' ∧ sh v v' = true :=
-  Lemmas.ProtoLiberalMap.unmarshal_accepts_of_decode_map fs hty b v h
+    ∃ v', unmarshal (.struct fs) b = .ok v' ∧ sh v v' = true := by
+  rw [Lemmas.ProtoDepth.unmarshal_eq_unmarshalU _ _ hdep]
+  exact Lemmas.ProtoLiberalMap.unmarshal_accepts_of_decode_map fs hty b v h
+
+open Lemmas.ProtoMap in
+/-- `hdep` is satisfiable (together with the other hypotheses: the example message type with map fields of C03) -/
+example : Codec.nesting (codecOf (.struct Lemmas.ProtoMap.Findings.exMFields)) ≤ Gen.c_proto_maxDepth := by
+  have : codecOf (.struct Lemmas.ProtoMap.Findings.exMFields) = .struct (fieldsOf 1 Lemmas.ProtoMap.Findings.exMFields) := by
+    simp [codecOf]
+  rw [this, Lemmas.ProtoMap.Findings.exM_codec]; decide
 
 end Enc.Props.C12
